@@ -388,9 +388,13 @@ fn corpus(rng: &mut Rng, cases: &mut Cases) {
     let t = table(vec![("id", ColType::Id, ints(&(0..16).collect::<Vec<i64>>())), ("k0", ColType::Int("wide"), ints(&wide)), ("k1", ColType::Int("small"), ints(&(0..16).map(|i| i % 3).collect::<Vec<i64>>()))]);
     let mut r = fixed_realisation(vec![0, 16], 0); r.mem_lz4 = true;
     run_table(rng, cases, "corpus:groupby-compressed-key-type", &t, &r, &[(vec![key(1), key(2), Sel::Count1], None)]);
-    // open: executor-pinned-buffer (worker panic; classified by its message)
+    // fixed (186ef0c, by C02): worker panic `Trying to mutably borrow pinned buffer` (stage membership propagated through a shared scalar)
     let t = table(vec![("id", ColType::Id, ints(&[0, 1])), ("k0", ColType::Int("small"), ints(&[0, -1])), ("v0", ColType::Int("small"), opt_ints(&[Some(2), None]))]);
-    run_table(rng, cases, "corpus:executor-pinned-buffer", &t, &fixed_realisation(vec![0, 2], 0), &[(vec![Sel::Agg('M', 2), key(1), Sel::Agg('m', 1), Sel::Count1], None)]);
+    run_table(rng, cases, "corpus:fixed:executor-pinned-buffer", &t, &fixed_realisation(vec![0, 2], 0), &[(vec![Sel::Agg('M', 2), key(1), Sel::Agg('m', 1), Sel::Count1], None)]);
+    let t = table(vec![("id", ColType::Id, ints(&(0..8).collect::<Vec<i64>>())), ("k0", ColType::Int("small"), ints(&[0, -1, -1, -3, 0, -1, 0, -2])), ("v0", ColType::Int("small"), opt_ints(&[Some(2), Some(2), Some(-3), Some(-3), Some(1), Some(9), Some(2), None]))]);
+    run_table(rng, cases, "corpus:fixed:executor-pinned-buffer", &t, &fixed_realisation(vec![0, 8], 0), &[(vec![Sel::Agg('M', 2), key(1), Sel::Count1], None)]);
+    let t = table(vec![("id", ColType::Id, ints(&[0, 1, 2])), ("k0", ColType::Int("u8off"), ints(&[1000000000000, 1000000000007, 1000000000005]))]);
+    run_table(rng, cases, "corpus:fixed:executor-pinned-buffer", &t, &fixed_realisation(vec![0, 3], 0), &[(vec![key(1), Sel::Agg('M', 1)], None)]);
     // fixed in /repo (must pass): range wider than i64 (DESIGN §8 #9), WHERE + several grouping columns (filter applied twice),
     // key = 2^62 (float log2 width), nullable u8 / u16 key containing the type maximum, more than 63 bits of keys
     let t = table(vec![("id", ColType::Id, ints(&[0, 1, 2, 3, 4, 5, 6, 7])), ("k0", ColType::Int("big"), ints(&[i64::MIN + 1, -1, 0, 1, 5, 6, 7, i64::MAX - 1])), ("k1", ColType::Int("small"), ints(&[1, 1, 1, 2, 2, 2, 2, 2]))]);
